@@ -28,6 +28,7 @@ func init() {
   ScalarPdfRegistry["scalar:beta distribution"]               = new(BetaDistribution)
   ScalarPdfRegistry["scalar:binomial distribution"]           = new(BinomialDistribution)
   ScalarPdfRegistry["scalar:categorical distribution"]        = new(CategoricalDistribution)
+  ScalarPdfRegistry["scalar:chi-squared distribution"]        = new(ChiSquaredDistribution)
   ScalarPdfRegistry["scalar:cauchy distribution"]             = new(CauchyDistribution)
   ScalarPdfRegistry["scalar:delta distribution"]              = new(DeltaDistribution)
   ScalarPdfRegistry["scalar:exponential distribution"]        = new(ExponentialDistribution)
